@@ -172,6 +172,23 @@ def has_ifexp(obj):
         return False
 
 
+def names_in_methods(obj):
+    """(names used as self.<n>, plain names) in propagate / clock of the object's class"""
+    attrs, plain = set(), set()
+    try:
+        tree = ast.parse(textwrap.dedent(inspect.getsource(type(obj))))
+    except Exception:
+        return attrs, plain
+    for fn in ast.walk(tree):
+        if isinstance(fn, ast.FunctionDef) and fn.name in ('propagate', 'clock'):
+            for nd in ast.walk(fn):
+                if isinstance(nd, ast.Attribute) and isinstance(nd.value, ast.Name) and nd.value.id == 'self':
+                    attrs.add(nd.attr)
+                elif isinstance(nd, ast.Name) and nd.id != 'self':
+                    plain.add(nd.id)
+    return attrs, plain
+
+
 def clock_name(obj):
     from py4hw.base import getObjectClockDriver
     try:
@@ -613,7 +630,10 @@ class Pipeline:
             if kind == 'undeclared' and obj is not None and is_transpiled(g, obj):
                 from py4hw.base import Wire
                 n = f[1]
-                if not hasattr(obj, n):
+                attrs, plain = names_in_methods(obj)
+                if not hasattr(obj, n) and n in attrs and n not in plain:
+                    # used as self.<n> although the object has no such attribute (SubBorrowIn.ci); a method-local temporary or
+                    # an instance variable that the transpiler failed to declare is NOT this finding
                     r['why'] = 'missing-attribute'
                 else:
                     v = getattr(obj, n)
